@@ -576,6 +576,8 @@ def conv_case(ctx, drv, base, tms, rng, c14):
     dt, cv = rng.choice([("U3", None), ("U8", None), ("U20", "utf8"), ("i8", None), ("f8", None), ("f8", "exponent"),
                          ("f8", "dms2deg"), ("O", "epoch"), ("O", "tuple"), ("O", "yyyydddsssss")])
     t = rng.choice(CONV_TEXTS) if rng.random() < 0.7 else "".join(rng.choice("0123456789.-+eED: ") for _ in range(rng.randint(1, 14))).strip()
+    if re.search(r"[eEdD][+-]?\d{3}", t):  # exponents beyond the doubles: the model's exact rational has thousands of digits
+        t = re.sub(r"([eEdD][+-]?\d{2})\d+", r"\1", t)
     # two records so that the tested text is not the one genfromtxt sniffs the converter with; both orders
     first = rng.random() < 0.5
     texts = [t, "1"] if first else ["1", t]
@@ -651,9 +653,14 @@ def ws_case(ctx, drv, tms, rng, WS):
             if data.ndim == 1 and len(rows):
                 data = np.array([data])
             tx = lambda x: x.decode("latin1") if isinstance(x, bytes) else str(x)
-            real = [[tx(x) if textual[j] else float(x) for j, x in enumerate(r)] for r in data] if len(rows) else []
+            if len(rows) and data.shape != (len(rows), n):
+                real = f"SHAPE {data.shape} for {len(rows)} records of {n} tokens"
+            else:
+                real = [[tx(x) if textual[j] else float(x) for j, x in enumerate(r)] for r in data] if len(rows) else []
         except ValueError as e:
             real = "RAISES"
+        except Exception as e:  # noqa: BLE001
+            real = f"ERR {type(e).__name__}"
     ans = drv.ask1("c14 ws " + " ".join(hexs(l) for l in lines))
     if ans == "RAISES":
         model = "RAISES"
